@@ -327,7 +327,10 @@ def evaluator_rules(ctx: Ctx) -> None:
         b = f.body
         ok = len(b) == 1 and isinstance(b[0], ast.Return) and isinstance(b[0].value, ast.BinOp) and isinstance(b[0].value.op, op) \
             and unparse(b[0].value.left) == 'self.left.get_value()' and unparse(b[0].value.right) == 'self.right.get_value()'
-        ctx.add(R, f'{cname}.get_value', ok, f, f'{cname} evaluates left {op.__name__} right' if ok else f'{cname}.get_value returns {unparse(b[-1])[:80]}', unparse(b[-1]))
+        # one operation on the values of the two operands: the operator and the order of the operands are then decided
+        plain = len(b) == 1 and isinstance(b[0], ast.Return) and isinstance(b[0].value, ast.BinOp) and {unparse(b[0].value.left), unparse(b[0].value.right)} == {'self.left.get_value()', 'self.right.get_value()'}
+        ctx.add(R, f'{cname}.get_value', ok if (ok or plain) else None, f, f'{cname} evaluates left {op.__name__} right' if ok else
+                (f'{cname}.get_value returns {unparse(b[-1])[:80]}, which is not left {op.__name__} right' if plain else f'{cname}.get_value is not in the expected form (one operation on the values of the two operands)'), unparse(b[-1]), positive=plain and not ok)
     for cname, truth in COMPARE.items():
         f = gv(cname)
         bad = []
@@ -373,7 +376,10 @@ def evaluator_rules(ctx: Ctx) -> None:
         f = gv(cname)
         b = f.body
         ok = len(b) == 1 and unparse(b[0]) in (f'return np.{fn}(self.child.get_value())', f'return numpy.{fn}(self.child.get_value())', f'return math.{fn}(self.child.get_value())')
-        ctx.add(R, f'{cname}.get_value', ok, f, f'{cname} applies np.{fn} to its child' if ok else f'{cname}.get_value: {unparse(b[-1])}', unparse(b[-1]))
+        m_ = re.fullmatch(r'return (?:np|numpy|math)\.(\w+)\(self\.child\.get_value\(\)\)', unparse(b[0])) if len(b) == 1 else None
+        other = m_ is not None and m_.group(1) != fn
+        ctx.add(R, f'{cname}.get_value', ok if (ok or other) else None, f, f'{cname} applies np.{fn} to its child' if ok else
+                (f'{cname}.get_value applies {m_.group(1)} to its child, not {fn}' if other else f'{cname}.get_value is not in the expected form (np.{fn} of the value of the child)'), unparse(b[-1]), positive=other)
     f = gv('logzero')
     C = {'self.child.get_value()': 'C'}
     bad = []
@@ -531,7 +537,22 @@ def _loglogit_value(ctx: Ctx) -> None:
 # --------------------------------------------------------------------------
 
 
+#: obligations whose failure contradicts the property (rule, construct pattern, why); every other failure is 'not recognised'
+POSITIVE: list[tuple[str, str, str]] = [
+    ('C01.R1', r'^Expression\.__\w+__$', 'the class / operand order returned by an operator dunder is read off its return statements and compared with the Python data model'),
+    ('C01.R3', r':record$', 'the record template interpreted from get_signature (interpretation succeeded) is not the one the engine parses for this tag'),
+    ('C01.R4', r'\.get_signature$', 'an id written in the record belongs to a node whose signature is not emitted before it'),
+    ('C01.R9', r':appearance-order$', 'a positional sequence follows the insertion order of a dictionary of parameters'),
+    ('C01.R9', r'_betas\.expressions\[', 'a per-parameter vector is indexed by names of another kind / another order'),
+    ('C01.R8', r'calculate_function_and_derivatives:the_cpp\.', 'an argument handed to the engine has another role than the slot the engine reads'),
+    ('C01.R6', r'^(Equal|NotEqual|LessOrEqual|GreaterOrEqual|Less|Greater|And|Or|bioMin|bioMax|logzero|PowerConstant)\.get_value$', 'truth table / case table obtained by interpreting the method over the finite abstraction of its operands'),
+    ('C01.R6', r':(unavailable|chosen-availability|denominator)$', 'LogLogit.get_value matched with holes: a constant return that is not a log-probability, a test or a term that is not the one of the logit formula'),
+    ('C01.R5', r'^(class|enum|table|leaf):', 'leaf-id table: a class is tied to another enum constant / table / id attribute'),
+]
+
+
 def run(ctx: Ctx) -> None:
+    ctx.positive_table = list(POSITIVE)
     prog = ctx.prog
     ctx.rule('C01.R1', 'opcode table: every operator dunder of Expression returns the class of the Python data-model table with (self, other) for the '
              'direct and (other, self) for the reflected form, after the operand guard is_numeric(other) or isinstance(other, Expression)')
